@@ -250,64 +250,31 @@ theorem free_flatMap {b o : UInt8} {n f : Bytes} (hn : free b n) (hf : ∀ x ∈
     subst hxy
     exact hf x hy (by simpa using hne)
 
-theorem applyOps_noNul (stamp : Bytes) (w : List Bytes) (hst : free 0 stamp) (hsep : free 0 Gen.ConfigDir.uniqueSep) :
-    (ops : List NameOp) → noNul ops = true → (f : Bytes) → free 0 f → free 0 (applyOps stamp w ops f)
-  | [], _, f, hf => hf
-  | op :: r, h, f, hf => by
-    simp only [applyOps]
-    cases op with
-    | orStamp =>
-      simp only [noNul] at h
-      apply applyOps_noNul stamp w hst hsep r h
-      simp only [applyOp]; split
-      · exact hst
-      · exact hf
-    | truncate lim keep =>
-      simp only [noNul] at h
-      apply applyOps_noNul stamp w hst hsep r h
-      simp only [applyOp]; split
-      · exact free_take _ hf
-      · exact hf
-    | replaceAll o n =>
-      simp only [noNul, Bool.and_eq_true, Bool.not_eq_true'] at h
-      apply applyOps_noNul stamp w hst hsep r h.2
-      simp only [applyOp]
-      exact free_flatMap (free_of_contains h.1) (fun x hx _ => hf x hx)
-    | append s =>
-      simp only [noNul, Bool.and_eq_true, Bool.not_eq_true'] at h
-      apply applyOps_noNul stamp w hst hsep r h.2
-      simp only [applyOp]
-      exact free_append hf (free_of_contains h.1)
-    | unique =>
-      simp only [noNul] at h
-      apply applyOps_noNul stamp w hst hsep r h
-      simp only [applyOp]
-      exact uniq_free 0 (by decide) hsep w f hf
-
-theorem applyOps_noSep (stamp : Bytes) (w : List Bytes) (hst : free 47 stamp) (hsep : free 47 Gen.ConfigDir.uniqueSep) :
-    (ops : List NameOp) → (clean : Bool) → noSep clean ops = true → (f : Bytes) → (clean = true → free 47 f) →
-    free 47 (applyOps stamp w ops f)
-  | [], clean, h, f, hf => by simp only [noSep] at h; exact hf h
+theorem applyOps_noByte (b : UInt8) (hb : b.toNat < 48 ∨ 57 < b.toNat) (stamp : Bytes) (w : List Bytes)
+    (hst : free b stamp) (hsep : free b Gen.ConfigDir.uniqueSep) :
+    (ops : List NameOp) → (clean : Bool) → noByte b clean ops = true → (f : Bytes) → (clean = true → free b f) →
+    free b (applyOps stamp w ops f)
+  | [], clean, h, f, hf => by simp only [noByte] at h; exact hf h
   | op :: r, clean, h, f, hf => by
     simp only [applyOps]
     cases op with
     | orStamp =>
-      simp only [noSep] at h
-      apply applyOps_noSep stamp w hst hsep r clean h
+      simp only [noByte] at h
+      apply applyOps_noByte b hb stamp w hst hsep r clean h
       intro hc
       simp only [applyOp]; split
       · exact hst
       · exact hf hc
     | truncate lim keep =>
-      simp only [noSep] at h
-      apply applyOps_noSep stamp w hst hsep r clean h
+      simp only [noByte] at h
+      apply applyOps_noByte b hb stamp w hst hsep r clean h
       intro hc
       simp only [applyOp]; split
       · exact free_take _ (hf hc)
       · exact hf hc
     | replaceAll o n =>
-      simp only [noSep] at h
-      apply applyOps_noSep stamp w hst hsep r _ h
+      simp only [noByte] at h
+      apply applyOps_noByte b hb stamp w hst hsep r _ h
       intro hc
       simp only [Bool.and_eq_true, Bool.or_eq_true, beq_iff_eq, Bool.not_eq_true'] at hc
       simp only [applyOp]
@@ -317,33 +284,37 @@ theorem applyOps_noSep (stamp : Bytes) (w : List Bytes) (hst : free 47 stamp) (h
       · exact hf hcl x hx
       · rw [← ho]; exact hxo
     | append s =>
-      simp only [noSep] at h
-      apply applyOps_noSep stamp w hst hsep r _ h
+      simp only [noByte] at h
+      apply applyOps_noByte b hb stamp w hst hsep r _ h
       intro hc
       simp only [Bool.and_eq_true, Bool.not_eq_true'] at hc
       simp only [applyOp]
       exact free_append (hf hc.1) (free_of_contains hc.2)
     | unique =>
-      simp only [noSep] at h
-      apply applyOps_noSep stamp w hst hsep r clean h
+      simp only [noByte] at h
+      apply applyOps_noByte b hb stamp w hst hsep r clean h
       intro hc
       simp only [applyOp]
-      exact uniq_free 47 (by decide) hsep w f (hf hc)
-
-
-
+      exact uniq_free b hb hsep w f (hf hc)
+    | mark =>
+      simp only [noByte] at h
+      apply applyOps_noByte b hb stamp w hst hsep r clean h
+      intro hc
+      simp only [applyOp]
+      exact hf hc
 
 /-- what `opsOK` says -/
 theorem opsOK_split (ops : List NameOp) (e : Bytes) (h : opsOK ops e = true) :
-    ∃ pre, ops = pre ++ [.append e, .unique] ∧ isExt e = true ∧ noSep false pre = true ∧ noNul pre = true ∧
+    ∃ pre, ops = pre ++ [.append e, .unique, .mark] ∧ pre.all (· != .mark) = true ∧ isExt e = true ∧
+      noSep false pre = true ∧ noNul false pre = true ∧
       free 47 Gen.ConfigDir.uniqueSep ∧ free 0 Gen.ConfigDir.uniqueSep := by
   unfold opsOK at h
   split at h
   · rename_i e' pre hrev
     simp only [Bool.and_eq_true, beq_iff_eq, Bool.not_eq_true'] at h
-    obtain ⟨⟨⟨⟨⟨he, hx⟩, hs⟩, hn⟩, h47⟩, h0⟩ := h
+    obtain ⟨⟨⟨⟨⟨⟨hm, he⟩, hx⟩, hs⟩, hn⟩, h47⟩, h0⟩ := h
     subst he
-    refine ⟨pre.reverse, ?_, hx, hs, hn, free_of_contains h47, free_of_contains h0⟩
+    refine ⟨pre.reverse, ?_, by simpa using hm, hx, hs, hn, free_of_contains h47, free_of_contains h0⟩
     have := congrArg List.reverse hrev
     simpa using this
   · simp at h
@@ -392,15 +363,15 @@ theorem contains_false_of_free {b : UInt8} {f : Bytes} (h : free b f) : f.contai
 
 /-- the file name of an item: has the extension, is usable, and is new -/
 theorem fileName_ok (ops : List NameOp) (e : Bytes) (h : opsOK ops e = true) (stamp : Bytes) (w : List Bytes) (name : Bytes)
-    (hn : free 0 name) (hs0 : free 0 stamp) (hs47 : free 47 stamp) :
+    (hs0 : free 0 stamp) (hs47 : free 47 stamp) :
     ext (fileName ops stamp w name) = e ∧ usable (fileName ops stamp w name) = true ∧ fileName ops stamp w name ∉ w := by
-  obtain ⟨pre, rfl, he, hsep, hnul, hu47, hu0⟩ := opsOK_split ops e h
-  have hfn : fileName (pre ++ [.append e, .unique]) stamp w name = uniq w (applyOps stamp w pre name ++ e) := by
+  obtain ⟨pre, rfl, _, he, hsep, hnul, hu47, hu0⟩ := opsOK_split ops e h
+  have hfn : fileName (pre ++ [.append e, .unique, .mark]) stamp w name = uniq w (applyOps stamp w pre name ++ e) := by
     simp [fileName, applyOps_append, applyOps, applyOp]
   rw [hfn]
   have hext := ext_uniq w (applyOps stamp w pre name) e he
-  have hg0 := applyOps_noNul stamp w hs0 hu0 pre hnul name hn
-  have hg47 := applyOps_noSep stamp w hs47 hu47 pre false hsep name (by simp)
+  have hg0 := applyOps_noByte 0 (by decide) stamp w hs0 hu0 pre false hnul name (by simp)
+  have hg47 := applyOps_noByte 47 (by decide) stamp w hs47 hu47 pre false hsep name (by simp)
   have hfe := free_isExt e he
   have h0 := uniq_free 0 (by decide) hu0 w _ (free_append hg0 hfe.2)
   have h47 := uniq_free 47 (by decide) hu47 w _ (free_append hg47 hfe.1)
@@ -429,6 +400,74 @@ theorem fileName_ok (ops : List NameOp) (e : Bytes) (h : opsOK ops e = true) (st
 
 
 
+/-! ### the in-use mark: taken on the final name (`opsOK`), the kept names are the written names -/
+
+/-- the item loop when the mark is taken on the final name: one list serves as `written` and `kept` -/
+def dumpLoopW {α : Type} (ops : List NameOp) (enc : α → Json) (nameOf : α → Bytes) (clock : Nat → Bytes) :
+    Nat → List α → Dir → List Bytes → Option (Dir × List Bytes)
+  | _, [], d, written => some (d, written)
+  | i, c :: r, d, written =>
+    let n := fileName ops (clock i) written (nameOf c)
+    if usable n then dumpLoopW ops enc nameOf clock (i + 1) r (write d n (.doc (enc c))) (n :: written) else none
+
+def marshalDynamicW {α : Type} (ops : List NameOp) (enc : α → Json) (nameOf : α → Bytes) (clock : Nat → Bytes)
+    (d : Dir) (cs : List α) : Option Dir :=
+  match dumpLoopW ops enc nameOf clock 0 cs d [] with
+  | none => none
+  | some (d', written) =>
+    let stale := (d.map (·.1)).filter (fun n => !written.contains n)
+    some (d'.filter (fun f => !stale.contains f.1))
+
+theorem markAt_last (stamp : Bytes) (w : List Bytes) : (pre : List NameOp) → pre.all (· != .mark) = true → (f : Bytes) →
+    markAt stamp w (pre ++ [.mark]) f = some (applyOps stamp w (pre ++ [.mark]) f)
+  | [], _, f => by simp [markAt, applyOps, applyOp]
+  | op :: r, h, f => by
+    simp only [List.all_cons, Bool.and_eq_true, bne_iff_ne] at h
+    have ih := markAt_last stamp w r h.2 (applyOp stamp w op f)
+    cases op with
+    | mark => exact absurd rfl h.1
+    | orStamp => simpa [markAt, applyOps] using ih
+    | truncate a b => simpa [markAt, applyOps] using ih
+    | replaceAll a b => simpa [markAt, applyOps] using ih
+    | append a => simpa [markAt, applyOps] using ih
+    | unique => simpa [markAt, applyOps] using ih
+
+theorem markAt_opsOK (ops : List NameOp) (e : Bytes) (h : opsOK ops e = true) (stamp : Bytes) (w : List Bytes) (f : Bytes) :
+    markAt stamp w ops f = some (fileName ops stamp w f) := by
+  obtain ⟨pre, rfl, hm, _⟩ := opsOK_split ops e h
+  have : pre ++ [NameOp.append e, .unique, .mark] = (pre ++ [.append e, .unique]) ++ [.mark] := by simp
+  rw [this]
+  exact markAt_last stamp w _ (by simp [hm]) f
+
+theorem dumpLoop_eq_W {α : Type} (ops : List NameOp) (e : Bytes) (h : opsOK ops e = true) (enc : α → Json)
+    (nameOf : α → Bytes) (clock : Nat → Bytes) : (cs : List α) → (i : Nat) → (d : Dir) → (w : List Bytes) →
+    dumpLoop ops enc nameOf clock i cs d w w = (dumpLoopW ops enc nameOf clock i cs d w).map (fun p => (p.1, p.2, p.2))
+  | [], _, _, _ => rfl
+  | c :: r, i, d, w => by
+    simp only [dumpLoop, dumpLoopW, markAt_opsOK ops e h]
+    split
+    · exact dumpLoop_eq_W ops e h enc nameOf clock r (i + 1) _ _
+    · rfl
+
+theorem marshalDynamic_eq_W {α : Type} (ops : List NameOp) (e : Bytes) (h : opsOK ops e = true) (enc : α → Json)
+    (nameOf : α → Bytes) (clock : Nat → Bytes) (d : Dir) (cs : List α) :
+    marshalDynamic ops enc nameOf clock d cs = marshalDynamicW ops enc nameOf clock d cs := by
+  unfold marshalDynamic marshalDynamicW
+  rw [dumpLoop_eq_W ops e h]
+  cases dumpLoopW ops enc nameOf clock 0 cs d [] <;> rfl
+
+/-- the names the item loop of `MarshalJSON` chooses, as a function of the items and the clock alone — the directory
+content is not consulted (newest first; `done` = the items written so far with their file names) -/
+def planLoop {α : Type} (ops : List NameOp) (nameOf : α → Bytes) (clock : Nat → Bytes) :
+    Nat → List α → List (Bytes × α) → List (Bytes × α)
+  | _, [], done => done
+  | i, c :: r, done =>
+    planLoop ops nameOf clock (i + 1) r ((fileName ops (clock i) (done.map (·.1)) (nameOf c), c) :: done)
+
+/-- the files a dump of `cs` leaves (file name, item), newest first -/
+def plan {α : Type} (ops : List NameOp) (nameOf : α → Bytes) (clock : Nat → Bytes) (cs : List α) : List (Bytes × α) :=
+  planLoop ops nameOf clock 0 cs []
+
 /-- the file of an item -/
 def docOf {α : Type} (enc : α → Json) (p : Bytes × α) : Bytes × Body := (p.1, .doc (enc p.2))
 
@@ -454,30 +493,30 @@ theorem filter_write {α : Type} (enc : α → Json) (d : Dir) (n : Bytes) (b : 
 theorem dumpLoop_spec {α : Type} (ops : List NameOp) (e : Bytes) (hops : opsOK ops e = true) (enc : α → Json)
     (nameOf : α → Bytes) (clock : Nat → Bytes) (hclock : ClockOK clock) :
     (cs : List α) → (i : Nat) → (d : Dir) → (done : List (Bytes × α)) →
-    (∀ c ∈ cs, free 0 (nameOf c)) →
     (done.map (·.1)).Nodup → d.filter (fun f => (done.map (·.1)).contains f.1) = done.map (docOf enc) →
     ∃ (d' : Dir) (new : List (Bytes × α)),
-      dumpLoop ops enc nameOf clock i cs d (done.map (·.1)) = some (d', (new ++ done).map (·.1)) ∧
+      dumpLoopW ops enc nameOf clock i cs d (done.map (·.1)) = some (d', (new ++ done).map (·.1)) ∧
       ((new ++ done).map (·.1)).Nodup ∧
       d'.filter (fun f => ((new ++ done).map (·.1)).contains f.1) = (new ++ done).map (docOf enc) ∧
       (∀ p ∈ new, ext p.1 = e) ∧ new.map (·.2) = cs.reverse ∧
-      (∀ f ∈ d', f.1 ∈ d.map (·.1) ∨ f.1 ∈ (new ++ done).map (·.1))
-  | [], i, d, done, _, hnd, hd => by
-    refine ⟨d, [], by simp [dumpLoop], by simpa using hnd, by simpa using hd, by simp, by simp, ?_⟩
+      (∀ f ∈ d', f.1 ∈ d.map (·.1) ∨ f.1 ∈ (new ++ done).map (·.1)) ∧
+      new ++ done = planLoop ops nameOf clock i cs done
+  | [], i, d, done, hnd, hd => by
+    refine ⟨d, [], by simp [dumpLoopW], by simpa using hnd, by simpa using hd, by simp, by simp, ?_, by simp [planLoop]⟩
     intro f hf
     left
     exact List.mem_map_of_mem hf
-  | c :: r, i, d, done, hnames, hnd, hd => by
-    obtain ⟨hext, huse, hnew⟩ := fileName_ok ops e hops (clock i) (done.map (·.1)) (nameOf c) (hnames c (by simp))
+  | c :: r, i, d, done, hnd, hd => by
+    obtain ⟨hext, huse, hnew⟩ := fileName_ok ops e hops (clock i) (done.map (·.1)) (nameOf c)
       (hclock i).1 (hclock i).2
-    simp only [dumpLoop, huse, if_true]
+    simp only [dumpLoopW, huse, if_true]
     generalize hn : fileName ops (clock i) (done.map (·.1)) (nameOf c) = n at hext hnew
     have hd2 := filter_write enc d n (.doc (enc c)) (done.map (·.1)) done hnew hd
-    obtain ⟨d', new, h1, h2, h3, h4, h5, h6⟩ := dumpLoop_spec ops e hops enc nameOf clock hclock r (i + 1)
+    obtain ⟨d', new, h1, h2, h3, h4, h5, h6, h7⟩ := dumpLoop_spec ops e hops enc nameOf clock hclock r (i + 1)
       (write d n (.doc (enc c))) ((n, c) :: done)
-      (fun c' hc' => hnames c' (by simp [hc'])) (by simpa using List.nodup_cons.mpr ⟨hnew, hnd⟩)
+      (by simpa using List.nodup_cons.mpr ⟨hnew, hnd⟩)
       (by simpa [docOf] using hd2)
-    refine ⟨d', new ++ [(n, c)], ?_, ?_, ?_, ?_, ?_, ?_⟩
+    refine ⟨d', new ++ [(n, c)], ?_, ?_, ?_, ?_, ?_, ?_, ?_⟩
     · simpa using h1
     · simpa using h2
     · simpa using h3
@@ -494,6 +533,8 @@ theorem dumpLoop_spec {α : Type} (ops : List NameOp) (e : Bytes) (hops : opsOK 
         · right; simp [h]
         · left; exact List.mem_map.mpr ⟨g, hg, hgf⟩
       · right; simpa using h
+    · simp only [planLoop, hn, List.append_assoc, List.singleton_append]
+      exact h7
 
 
 
@@ -521,15 +562,16 @@ theorem stale_iff (names w : List Bytes) (x : Bytes) (h : x ∈ names ∨ x ∈ 
 /-- what the dump leaves in the directory: exactly one file per item, under pairwise distinct names with the
 extension, whatever was there before -/
 theorem marshalDynamic_spec {α : Type} (ops : List NameOp) (e : Bytes) (hops : opsOK ops e = true) (enc : α → Json)
-    (nameOf : α → Bytes) (clock : Nat → Bytes) (hclock : ClockOK clock) (d : Dir) (cs : List α)
-    (hnames : ∀ c ∈ cs, free 0 (nameOf c)) :
+    (nameOf : α → Bytes) (clock : Nat → Bytes) (hclock : ClockOK clock) (d : Dir) (cs : List α) :
     ∃ files : List (Bytes × α), marshalDynamic ops enc nameOf clock d cs = some (files.map (docOf enc)) ∧
-      (files.map (·.1)).Nodup ∧ (∀ p ∈ files, ext p.1 = e) ∧ files.map (·.2) = cs.reverse := by
-  obtain ⟨d', new, h1, h2, h3, h4, h5, h6⟩ := dumpLoop_spec ops e hops enc nameOf clock hclock cs 0 d [] hnames
+      (files.map (·.1)).Nodup ∧ (∀ p ∈ files, ext p.1 = e) ∧ files.map (·.2) = cs.reverse ∧
+      files = plan ops nameOf clock cs := by
+  obtain ⟨d', new, h1, h2, h3, h4, h5, h6, h7⟩ := dumpLoop_spec ops e hops enc nameOf clock hclock cs 0 d []
     (by simp) (by simp)
-  simp only [List.map_nil, List.append_nil] at h1 h2 h3 h6
-  refine ⟨new, ?_, h2, h4, h5⟩
-  unfold marshalDynamic
+  simp only [List.map_nil, List.append_nil] at h1 h2 h3 h6 h7
+  refine ⟨new, ?_, h2, h4, h5, h7⟩
+  rw [marshalDynamic_eq_W ops e hops]
+  unfold marshalDynamicW
   rw [h1]
   simp only
   rw [← h3]
@@ -574,11 +616,10 @@ theorem filterMap_docOf {α : Type} (dcd : Json → Option α) (enc : α → Jso
 items (each as one (un)marshal cycle `nrm` leaves it), as a permutation -/
 theorem dynamic_roundtrip_gen {α : Type} (ops : List NameOp) (e : Bytes) (hops : opsOK ops e = true)
     (enc : α → Json) (dcd : Json → Option α) (nrm : α → α) (nameOf : α → Bytes) (clock : Nat → Bytes)
-    (hclock : ClockOK clock) (d : Dir) (cs : List α) (hcodec : ∀ c ∈ cs, dcd (enc c) = some (nrm c))
-    (hnames : ∀ c ∈ cs, free 0 (nameOf c)) :
+    (hclock : ClockOK clock) (d : Dir) (cs : List α) (hcodec : ∀ c ∈ cs, dcd (enc c) = some (nrm c)) :
     ∃ d' l, marshalDynamic ops enc nameOf clock d cs = some d' ∧ unmarshalDynamic dcd e d' = some l ∧
       l.Perm (cs.map nrm) := by
-  obtain ⟨files, h1, _, h3, h4⟩ := marshalDynamic_spec ops e hops enc nameOf clock hclock d cs hnames
+  obtain ⟨files, h1, _, h3, h4, _⟩ := marshalDynamic_spec ops e hops enc nameOf clock hclock d cs
   have hmem : ∀ p ∈ files, p.2 ∈ cs := by
     intro p hp
     have : p.2 ∈ files.map (·.2) := List.mem_map_of_mem hp
@@ -600,5 +641,55 @@ theorem dynamic_roundtrip_gen {α : Type} (ops : List NameOp) (e : Bytes) (hops 
     have e1 : files.map (fun p => nrm p.2) = (files.map (·.2)).map nrm := by simp
     rw [e1, h4, List.map_reverse]
     exact List.reverse_perm _
+
+/-! ## the dump does not look at the directory: idempotence, any number of dumps -/
+
+/-- the directory a dump leaves is a function of the items and the clock: `plan`, whatever the directory held -/
+theorem marshalDynamic_plan {α : Type} (ops : List NameOp) (e : Bytes) (hops : opsOK ops e = true) (enc : α → Json)
+    (nameOf : α → Bytes) (clock : Nat → Bytes) (hclock : ClockOK clock) (d : Dir) (cs : List α) :
+    marshalDynamic ops enc nameOf clock d cs = some ((plan ops nameOf clock cs).map (docOf enc)) := by
+  obtain ⟨files, h1, _, _, _, h5⟩ := marshalDynamic_spec ops e hops enc nameOf clock hclock d cs
+  rw [h1, h5]
+
+theorem applyOps_noStamp (s1 s2 : Bytes) (w : List Bytes) :
+    (ops : List NameOp) → ops.all (· != .orStamp) = true → (f : Bytes) → applyOps s1 w ops f = applyOps s2 w ops f
+  | [], _, _ => rfl
+  | op :: r, h, f => by
+    simp only [List.all_cons, Bool.and_eq_true, bne_iff_ne] at h
+    simp only [applyOps]
+    have : applyOp s1 w op f = applyOp s2 w op f := by
+      cases op with
+      | orStamp => exact absurd rfl h.1
+      | _ => rfl
+    rw [this]
+    exact applyOps_noStamp s1 s2 w r h.2 _
+
+/-- a non-empty name never reads the clock -/
+theorem fileName_clock_indep (ops : List NameOp) (h : stampFirst ops = true) (s1 s2 : Bytes) (w : List Bytes)
+    (name : Bytes) (hne : name ≠ []) : fileName ops s1 w name = fileName ops s2 w name := by
+  unfold fileName
+  cases ops with
+  | nil => rfl
+  | cons op r =>
+    cases op with
+    | orStamp =>
+      simp only [stampFirst] at h
+      have hemp : name.isEmpty = false := by cases name <;> simp_all
+      simp only [applyOps, applyOp, hemp]
+      exact applyOps_noStamp s1 s2 w r h _
+    | truncate a b => exact applyOps_noStamp s1 s2 w _ h _
+    | replaceAll a b => exact applyOps_noStamp s1 s2 w _ h _
+    | append a => exact applyOps_noStamp s1 s2 w _ h _
+    | unique => exact applyOps_noStamp s1 s2 w _ h _
+    | mark => exact applyOps_noStamp s1 s2 w _ h _
+
+theorem planLoop_clock_indep {α : Type} (ops : List NameOp) (h : stampFirst ops = true) (nameOf : α → Bytes)
+    (k1 k2 : Nat → Bytes) : (cs : List α) → (∀ c ∈ cs, nameOf c ≠ []) → (i j : Nat) → (done : List (Bytes × α)) →
+    planLoop ops nameOf k1 i cs done = planLoop ops nameOf k2 j cs done
+  | [], _, _, _, _ => rfl
+  | c :: r, hne, i, j, done => by
+    simp only [planLoop]
+    rw [fileName_clock_indep ops h (k1 i) (k2 j) _ (nameOf c) (hne c (by simp))]
+    exact planLoop_clock_indep ops h nameOf k1 k2 r (fun c' hc' => hne c' (by simp [hc'])) _ _ _
 
 end MosnVerif.Model.ConfigDir
